@@ -206,8 +206,8 @@ def case_null_space(m, n, timeout=60.0):
             if isinstance(val, GArr):
                 # real numpy: a non-empty list of int8 vectors -> (k, n) int8; an empty list -> float64 array of shape (0,)
                 typed.append(X.Implies(gd, X.And(X.Not(val.empty_guard()), val.decl == np.int8, val.cols == n)))
-                # number of present rows + number of pivots = n, as a one-hot count over (row guards + pivot indicators)
-                count.append(X.Implies(gd, L.count_is([rg for rg, _ in val.rows] + list(p), n)))
+                # one candidate row per column, present exactly when the column is free  =>  number of rows = n - number of pivots
+                count.append(X.Implies(gd, X.And(len(val.rows) == n, *[X.Iff(rg, X.Not(p[i])) for i, (rg, _) in enumerate(val.rows)]) if len(val.rows) == n else False))
                 rows = val.rows
             elif isinstance(val, np.ndarray):
                 okt = val.ndim == 2 and val.shape[1] == n and S.decl_of(val) == np.int8
